@@ -4158,6 +4158,141 @@ def spec_hidden_element_nothing(ctx, make_exe):
     return {"function": f.name, "paths": len(outs)}
 
 # ----------------------------------------------------------------------------
+# SPEC: block arms of do_render_node: the node's style is pushed on the renderer that is current when the arm starts
+# and unwound on that same renderer - i.e. after every sub-renderer the arm pushed has been popped again - exactly
+# once on every successful way through the arm and the closures tree_map_reduce calls for it (prefn, postfn per
+# child, cons).  An unwind while a sub-renderer is still on top pops the *copy* of the annotation stack and leaves
+# the colour on the parent: everything after the element inherits it.
+# ----------------------------------------------------------------------------
+
+def _unbox(v):
+    while isinstance(v, VAgg) and ((v.path or "").startswith("Box") or v.variant == "Some") and v.fields:
+        v = v.fields[0]
+    if isinstance(v, VAgg) and v.variant == "None":
+        return None
+    return v
+
+
+BLOCK_ARM_KINDS = ["Block", "Header", "Div", "BlockQuote", "Ul", "Ol", "ListItem", "Dl", "Dt", "Dd", "Break", "FragStart"]
+
+
+def spec_block_arms_depth(ctx, make_exe):
+    import summaries
+    orig = summaries.summarize
+    f = the(ctx.find(r"^do_render_node$"), "do_render_node")
+    ev_re = re.compile(r"(apply|unwind|push|pop)$")
+    total = 0
+    checked = []
+    for kind in BLOCK_ARM_KINDS:
+        exe = make_exe(loop_bound=6)
+        exe.check_overflow_in = set()
+        st = State()
+        kids = VVec([VOpaque("RenderNode", "child0")])
+        if kind == "Header":
+            info = VAgg("RenderNodeInfo::Header", "Header", [exe.fresh("usize", "level"), kids])
+        elif kind == "Ol":
+            info = VAgg("RenderNodeInfo::Ol", "Ol", [exe.fresh("i64", "start"), kids])
+        elif kind == "Break":
+            info = VAgg("RenderNodeInfo::Break", "Break", [])
+        elif kind == "FragStart":
+            info = VAgg("RenderNodeInfo::FragStart", "FragStart", [VOpaque("String", "frag")])
+        else:
+            info = VAgg("RenderNodeInfo::" + kind, kind, [kids])
+        minw = exe.fresh("usize", "minw")
+        st.pc.append(z3.And(z3.UGE(minw.e, u64(8)), z3.ULE(minw.e, u64(1000))))   # arithmetic on the estimate is other specs' subject
+        pfx = exe.fresh("usize", "pfx")
+        st.pc.append(z3.ULE(pfx.e, u64(8)))
+        est = _agg(ctx, "SizeEstimate", size=exe.fresh("usize", "size"), min_width=minw, prefix_size=pfx)
+        node = _agg(ctx, "RenderNode", info=info, style=VOpaque("ComputedStyle", "style"),
+                    size_estimate=VAgg("Cell", None, [VAgg("Option::Some", "Some", [est])]))
+
+        def summ(exe_, st_, f_, bb_, callee, args, dest_ty, est=est):
+            c = callee.strip()
+            if re.search(r"PushedStyleInfo::apply", c):
+                return [(st_, VOpaque("PushedStyleInfo", "pushed"))]
+            if re.search(r"PushedStyleInfo::unwind", c):
+                return [(st_, VUnit())]
+            if re.search(r"^pending2::<", c):
+                return [(st_, VAgg("TreeMapResultModel", None, [args[0], args[1]]))]
+            if re.search(r"RenderNode::get_size_estimate$|RenderNode::calc_size_estimate|Option::<SizeEstimate>::unwrap_or_default$", c):
+                return [(st_, est)]
+            if re.search(r"TextRenderer::<D>::(push|pop)$", c):
+                return [(st_, VUnit() if c.endswith("push") else VOpaque("SubRenderer<D>", exe_.fresh_name("popped")))]
+            return orig(exe_, st_, f_, bb_, callee, args, dest_ty)
+
+        def events(s_, n0=0):
+            return [x for x in (_short_callee(c[0]) for c in s_.calls[n0:]) if ev_re.match(x)]
+
+        def run_closure(s_, clos, args):
+            """all (state, ok) continuations of one closure call; events accumulate in the states' call logs"""
+            res = []
+            for (s3, r3) in exe.call_closure(s_.clone(), clos, args):
+                res.append((s3, isinstance(r3, VAgg) and r3.variant == "Ok"))
+            return res
+        summaries.summarize = summ
+        finals = []       # (state, event sequence) of successful complete ways through the arm
+        n_err = 0
+        try:
+            try:
+                outs = exe.run(f.name, {1: VRef("val", VOpaque("TextRenderer<D>", "renderer")), 2: node, 3: VRef("val", VOpaque("T", "err_out"))}, st)
+                rr = VRef("val", VOpaque("TextRenderer<D>", "renderer"))
+                for (s2, ret) in outs:
+                    if not (isinstance(ret, VAgg) and ret.variant == "Ok"):
+                        n_err += 1
+                        continue
+                    tm = ret.fields[0]
+                    if isinstance(tm, VAgg) and tm.variant == "Finished":
+                        finals.append((s2, events(s2)))
+                    elif isinstance(tm, VAgg) and tm.path == "TreeMapResultModel":
+                        for (s3, ok) in run_closure(s2, tm.fields[1], [rr, VVec([])]):
+                            if ok:
+                                finals.append((s3, events(s3)))
+                    elif isinstance(tm, VAgg) and (tm.path or "").endswith("PendingChildren"):
+                        cons, prefn, postfn = _unbox(tm.fields[1]), _unbox(tm.fields[2]), _unbox(tm.fields[3])
+                        states = [s2]
+                        child = VRef("val", VOpaque("RenderNode", "child0"))
+                        for clos in (prefn, postfn):
+                            if clos is None:
+                                continue
+                            nxt = []
+                            for s_ in states:
+                                nxt += [s3 for (s3, ok) in run_closure(s_, clos, [rr, child]) if ok]
+                            states = nxt
+                        for s_ in states:
+                            for (s3, ok) in run_closure(s_, cons, [rr, VVec([])]):
+                                if ok:
+                                    finals.append((s3, events(s3)))
+                    else:
+                        raise Inconclusive("%s: result of the arm not recovered" % kind)
+            except PathEnd as e:
+                raise Inconclusive("%s: %s" % (kind, e))
+        finally:
+            summaries.summarize = orig
+        total += len(finals) + n_err
+        if not finals:
+            raise Inconclusive("%s: no successful way through the arm" % kind)
+        checked.append(kind)
+        for (s3, seq) in finals:
+            depth = 0
+            at_apply = None
+            unwound_at = []
+            for ev in seq:
+                if ev == "push":
+                    depth += 1
+                elif ev == "pop":
+                    depth -= 1
+                elif ev == "apply":
+                    at_apply = depth
+                elif ev == "unwind":
+                    unwound_at.append(depth)
+            post(exe, s3, z3.BoolVal(seq.count("apply") == 1 and len(unwound_at) == 1), f.name,
+                 "%s: the node's style is pushed once and unwound once (%s)" % (kind, seq))
+            post(exe, s3, z3.BoolVal(bool(unwound_at) and unwound_at[0] == at_apply), f.name,
+                 "%s: the style is unwound on the renderer it was pushed on, after the sub-renderers are popped (%s)" % (kind, seq))
+            post(exe, s3, z3.BoolVal(depth == 0), f.name, "%s: every sub-renderer pushed is popped again (%s)" % (kind, seq))
+    return {"function": f.name, "paths": total, "arms": checked}
+
+# ----------------------------------------------------------------------------
 # SPEC: the footnote list has one entry per recorded link, in order, numbered from 1 (TextDecorator::finalise, the
 # default used by the plain, rich and trivial decorators), and SubRenderer::finalise hands the decorator all the
 # links when footnotes are enabled and none otherwise.
@@ -5129,6 +5264,13 @@ ALL = [
          bounds="every sequence of 4 (thorough: 5) tokens over {identifier, ( ) [ ] { } ;}, then end of input",
          assumptions=["parse_token delivers the scripted tokens; derived PartialEq on Token compares discriminants for bracket tokens"],
          replay=lambda fd, vals, info: {"harness": "m_at_rule_skip", "values": [[0]]}),
+    Spec("block_arms_depth", ["C09", "C19", "C07"], spec_block_arms_depth,
+         functions=["do_render_node (Block, Header, Div, BlockQuote, Ul, Ol, ListItem, Dl, Dt, Dd, Break, FragStart arms and the closures "
+                    "tree_map_reduce calls for them: prefn, postfn, cons)"],
+         bounds="one node of each kind with one opaque child; renderer calls succeed or fail arbitrarily; minimum width estimate 8..1000",
+         assumptions=["PushedStyleInfo::{apply,unwind}, TextRenderer::{push,pop} are observed by name (style_unwind and t5_annotation_stack decide what they do)",
+                      "tree_map_reduce calls prefn, the child, postfn, then cons (tree_traversal)"],
+         replay=lambda fd, vals, info: {"harness": "m_block_colour_leak", "values": [[0]]}),
     Spec("finalise_entries", ["C08"], spec_finalise_entries,
          functions=["TextDecorator::finalise (default method) and its closure", "SubRenderer::finalise"],
          bounds="0, 1, 3 and 4 recorded links with opaque targets (arbitrary strings, possibly empty or equal); footnote option symbolic",
